@@ -3,6 +3,7 @@
 //! `kvrun serve` speaks JSON lines on stdin/stdout; other sub-commands run a complete
 //! (shardable) monitor in-process and print one JSON report.
 
+mod probe;
 mod chunkcheck;
 #[cfg(feature = "arc")]
 mod conc;
